@@ -664,19 +664,19 @@ class Runner(IOOpsMixin):
             return
         for k, tok in enumerate(t["row_tok"]):
             exp = float(q["T_MIN"]) + k * float(q["DT"])
-            if not TB.label_close(tok, exp, rel=1e-9):
+            if not abs(TB.tok_float(tok) - exp) <= 1e-6 + 1e-9 * abs(exp):
                 self.verdict("O-disk", "C15", client, i, f"{tag}{relp}: row label {tok} != T_MIN+{k}*DT = {exp}")
                 return
         if e["base"] == "tp":
             for j, tok in enumerate(t["col_tok"]):
                 exp = float(q["P_MIN"]) + j * float(q["DELTA_P"])
-                if not TB.label_close(tok, exp, rel=0, abs_=1e-6):
+                if not abs(TB.tok_float(tok) - exp) <= 1e-6:
                     self.verdict("O-disk", "C15", client, i, f"{tag}{relp}: column label {tok} != P_MIN+{j}*DELTA_P = {exp} GPa")
                     return
         else:
             va = m["v_array"] * U.FACTORS[("bohr3", "angstrom3")]
             for j, tok in enumerate(t["col_tok"]):
-                if not TB.label_close(tok, float(va[j]), rel=1e-8):
+                if not abs(TB.tok_float(tok) - float(va[j])) <= 1e-6 + 1e-8 * abs(float(va[j])):
                     self.verdict("O-disk", "C15", client, i, f"{tag}{relp}: column label {tok} != grid volume {va[j]} A^3")
                     return
         if mem is None:
